@@ -132,9 +132,21 @@ class C02(Check):
         sc = Scope(sorter)
         # returned list
         rets = [n for n in walk_no_nested(sorter) if isinstance(n, ast.Return) and n.value is not None]
-        if not rets or not all(isinstance(r.value, ast.Name) for r in rets):
+        named = [r for r in rets if isinstance(r.value, ast.Name)]
+        if not named:
             raise AnalysisError(f"{q}: return shape not recognised")
-        out_names = {r.value.id for r in rets}
+        out_names = {r.value.id for r in named}
+        for r in rets:
+            if isinstance(r.value, ast.Name):
+                continue
+            if isinstance(r.value, (ast.List, ast.Tuple)) and not r.value.elts:
+                self.holds("R1", MOD, q, f"emit {norm(r)}", r, "returns an empty order")
+            elif any(isinstance(x, ast.Attribute) and x.attr == "name" for x in ast.walk(r.value)):
+                self.violated("R1", MOD, q, f"emit {norm(r)[:60]}", r,
+                              f"`{norm(r)[:80]}` returns component names as resolved without testing `required <= available` for them",
+                              witness="a model whose only computed component names itself: add_derived('d', f, args=['k','d']) is evaluated (KeyError) instead of rejected as circular")
+            else:
+                self.undecided_ob("R1", MOD, q, f"emit {norm(r)[:60]}", r, "return value of the sorter not recognised")
         loops = [n for n in sorter.body if isinstance(n, (ast.While, ast.For))]
         main = [l for l in loops if any(isinstance(x, ast.Call) and isinstance(x.func, ast.Attribute)
                                         and x.func.attr == "append" and isinstance(x.func.value, ast.Name)
@@ -570,6 +582,7 @@ class C02(Check):
             Variant("shortcut-break-only", MOD, S,
                     "raise CircularDependencyError(missing={dependency.name: dependency.required.difference(available)})",
                     "break", expect="R2|", quick=True),
+            Variant("early-return-for-single-element", MOD, S, "    order = []\n", "    if len(elements) < 2:\n        return [dependency.name for dependency in elements]\n    order = []\n", expect="R1|", quick=True),
             Variant("drop-sortable-check", MOD, S, "    _check_if_is_sortable(available, elements)\n", "", expect="R5|", quick=True),
             Variant("cap-linear", MOD, S, "max_iterations = len(elements) ** 2", "max_iterations = len(elements)", expect="R4|", quick=True),
             Variant("cap-half-square", MOD, S, "max_iterations = len(elements) ** 2", "max_iterations = len(elements) ** 2 // 2", expect="R4|"),
